@@ -172,6 +172,73 @@ def error_propagation(chk, rng, per_overload, prefix="c06"):
     chk.coverage[f"{prefix}_lib_propagate_skipped"] = skipped
     if progs:
         chk.sample({"lib-propagate": progs[0][0]})
+    dyn_error_propagation(chk, rng, per_overload, prefix)
+
+
+def dyn_error_propagation(chk, rng, per_overload, prefix="c06"):
+    """the same probe for the overloads whose signature is computed from the call (`dyn fn`: partial, zip, sort,
+    eq/hash/to_str/cmp of containers, …).  Their factories look at the static argument types, so the error argument
+    is a *typed* error: `[v][7]` (index out of bounds) where `v` is a good argument of that type; the error value
+    itself is bound and dumped, and the call's result must be exactly that dump."""
+    from . import c01 as L
+    sigs = L.library_signatures()
+    pool = L.Pool(rng, L.build_producers(sigs))
+    progs, meta = [], []
+    n = 0
+    for name in sorted(L.DYN_CALLS):
+        if name not in sigs or name in HANDLERS or NONDET.search(name):
+            continue
+        for tys in L.DYN_CALLS[name]:
+            for _ in range(max(1, per_overload)):
+                args = [pool._pick(t, 0, True, False) for t in tys]
+                if not args or any(a is None for a in args):
+                    continue
+                for i in ([0] if name in SHORT else range(len(args))):
+                    n += 1
+                    lines, names, call_args = [], [], []
+                    for j, a in enumerate(args):
+                        lines.append(f"let g{n}_{j} = {a};")
+                        if j == i:
+                            lines.append(f"let x{n} = [g{n}_{j}][7];")
+                            call_args.append(f"x{n}")
+                            names.append(f"x{n}")
+                        else:
+                            call_args.append(f"g{n}_{j}")
+                            names.append(f"g{n}_{j}")
+                    lines.append(f"let r{n} = {name}({', '.join(call_args)});")
+                    names.append(f"r{n}")
+                    progs.append(("\n".join(lines) + "\n", names))
+                    meta.append((name, ", ".join(L.ts(t) for t in tys), i, n, len(args)))
+    res = _run_cases(progs, BASE_LIMITS)
+    skipped = {}
+    for (name, sig, i, n, k), (src, names), r in zip(meta, progs, res):
+        chk.evaluations += 1
+        chk.count(f"{prefix}:lib-propagate-dyn")
+        if r["outcome"] != "ok":
+            key = r["outcome"] + ":" + str(r.get("detail"))[:40]
+            skipped[key] = skipped.get(key, 0) + 1
+            continue
+        vals = r["vals"]
+        expected = vals.get(f"x{n}", "")
+        if not expected.startswith("(error "):
+            skipped["probe-not-an-error"] = skipped.get("probe-not-an-error", 0) + 1
+            continue
+        for j in range(i):
+            d = vals.get(f"g{n}_{j}", "")
+            if d.startswith("(error "):
+                expected = d
+                break
+        got = vals.get(f"r{n}")
+        chk.nontrivial.add(f"dyn {name}/{k}@{i}")
+        if got != expected:
+            kind = "dropped" if not str(got).startswith("(error ") else "not-leftmost"
+            chk.violation(f"{prefix}:lib-propagate:{name}:{kind}",
+                          f"dynamic library function `{name}` (argument types {sig}) called with an error value as argument {i}: result {got}; the leftmost error {expected} must be the result "
+                          f"(the function is not a documented handler / short-circuit for that position)",
+                          {"src": src, "get": names, "limits": BASE_LIMITS, "expected": {f"r{n}": expected}, "got": {f"r{n}": got}})
+    chk.coverage[f"{prefix}_lib_propagate_dyn_skipped"] = skipped
+    if progs:
+        chk.sample({"lib-propagate-dyn": progs[0][0]})
 
 
 def limit_transparency(chk, rng, per_overload, prefix="c08", sweeps=None):
